@@ -7,7 +7,6 @@ use crate::gen_search::{self, Gen, Opts};
 use crate::refint::{self, R1};
 use crate::valid;
 use serde_json::json;
-use std::collections::BTreeMap;
 
 pub struct C08Check;
 pub static C08: C08Check = C08Check;
@@ -124,14 +123,6 @@ impl Check for C08Check {
         let mut facts = Facts::default();
         fault_facts(&case.program, &mut facts);
         let p = &case.program;
-        let r1 = R1::new(
-            p,
-            refint::Opts { all_choices: true, fuel: 30_000, unfold: 1, ..Default::default() },
-        )
-        .run();
-        if r1.cut {
-            return CaseResult { verdict: Verdict::Inconclusive("reference out of fuel".into()), facts };
-        }
         let run = run_program(p, &case.cfg, usize::MAX, false);
         facts.trace_hash = run.stats.trace_hash;
         facts.stats.push(run.stats.clone());
@@ -158,58 +149,59 @@ impl Check for C08Check {
         got.sort();
         facts.answers_compared += got.len() as u64;
 
-        // choice points that matter: those some reference answer depends on
-        let cps = &r1.choice_points;
-        let space: u64 = cps.iter().map(|c| if c.forced_first { 1 } else { c.heads.max(1) as u64 }).product();
-        if cps.len() > 14 || space > 20_000 {
-            return CaseResult { verdict: Verdict::Inconclusive("too many choice functions".into()), facts };
-        }
-        // enumerate choice functions
-        let free: Vec<&refint::ChoicePoint> = cps.iter().filter(|c| !c.forced_first && c.heads > 1).collect();
-        let mut pick: BTreeMap<u32, u32> = cps.iter().map(|c| (c.id, 0u32)).collect();
-        let mut counter = vec![0u32; free.len()];
+        // Enumerate the reference's committed choices: a depth-first walk over choice scripts.
+        // Every run follows its script (first answer beyond it and at order-deterministic heads)
+        // and reports the choice points it met; alternatives are explored at the positions the
+        // script did not fix.
+        let mut stack: Vec<Vec<u32>> = vec![vec![]];
+        let mut runs = 0u32;
         let mut matched = false;
-        let mut closest: Option<Vec<T>> = None;
-        loop {
-            for (i, c) in free.iter().enumerate() {
-                pick.insert(c.id, counter[i]);
+        let mut first_expect: Option<Vec<T>> = None;
+        let mut cps_seen = 0usize;
+        let mut free_seen = 0usize;
+        while let Some(script) = stack.pop() {
+            runs += 1;
+            if runs > 400 {
+                return CaseResult { verdict: Verdict::Inconclusive("too many choice functions".into()), facts };
             }
-            let mut sel: Vec<T> = r1
-                .answers
-                .iter()
-                .filter(|a| a.choices.iter().all(|(cp, i)| pick.get(cp) == Some(i)))
-                .map(|a| a.term.clone())
-                .collect();
+            let fixed = script.len();
+            let r1 = R1::new(
+                p,
+                refint::Opts { choice_script: Some(script), fuel: 30_000, unfold: 1, ..Default::default() },
+            )
+            .run();
+            if r1.cut {
+                return CaseResult { verdict: Verdict::Inconclusive("reference out of fuel".into()), facts };
+            }
+            let mut sel: Vec<T> = r1.answers.iter().map(|a| a.term.clone()).collect();
             sel.sort();
+            cps_seen = cps_seen.max(r1.choice_points.len());
             if sel == got {
                 matched = true;
                 break;
             }
-            if closest.is_none() {
-                closest = Some(sel);
+            if first_expect.is_none() {
+                first_expect = Some(sel);
             }
-            // next
-            let mut k = 0;
-            loop {
-                if k == free.len() {
-                    break;
+            let picks: Vec<u32> = r1.choice_points.iter().map(|c| c.picked).collect();
+            for i in fixed..r1.choice_points.len() {
+                let c = &r1.choice_points[i];
+                if c.forced_first {
+                    continue;
                 }
-                counter[k] += 1;
-                if counter[k] < free[k].heads {
-                    break;
+                free_seen += 1;
+                for alt in 1..c.heads {
+                    let mut s2 = picks[..i].to_vec();
+                    s2.push(alt);
+                    stack.push(s2);
                 }
-                counter[k] = 0;
-                k += 1;
-            }
-            if k == free.len() {
-                break;
             }
         }
         if !matched {
-            let expect = closest.unwrap_or_default();
-            let class = if got.len() > expect.len() && free.is_empty() {
+            let expect = first_expect.unwrap_or_default();
+            let class = if got.len() > expect.len() && free_seen == 0 {
                 "committed-choice-extra-answers"
-            } else if got.len() < expect.len() && free.is_empty() {
+            } else if got.len() < expect.len() && free_seen == 0 {
                 "committed-choice-lost-answers"
             } else {
                 "committed-choice-answers-differ"
@@ -218,17 +210,17 @@ impl Check for C08Check {
                 verdict: Verdict::Violation {
                     class: class.into(),
                     detail: format!(
-                        "engine {:?}; reference with first-answer choices {:?}; {} choice points ({} free)",
+                        "engine {:?}; reference with first-answer choices {:?}; {} choice points, {} reference evaluations",
                         show_terms(&got),
                         show_terms(&expect),
-                        cps.len(),
-                        free.len()
+                        cps_seen,
+                        runs
                     ),
                 },
                 facts,
             };
         }
-        facts.nontrivial = cps.iter().any(|c| c.heads >= 1) || p.any(|g| matches!(g, G::Conda(_)));
+        facts.nontrivial = cps_seen >= 1 || p.any(|g| matches!(g, G::Conda(_)));
         CaseResult { verdict: Verdict::Pass, facts }
     }
 }
